@@ -51,11 +51,15 @@ def node_range(n):
 
 class TreeBuilder:
     """the sink of intersperse_trivia (GreenNodeBuilder semantics)"""
-    def __init__(self, full, SS):
+    def __init__(self, full, SS, ex=None):
         self.full = full; self.SS = SS
         self.root = None; self.stack = []
         self.errors = []
         self.pos = 0       # char index of the next token
+        self.ex = ex
+        # the real oq3_syntax::SyntaxTreeBuilder::error turns (message, offset) into a SyntaxError with a range;
+        # it runs from MIR on a builder value whose green-node part is never touched by it
+        self.real_builder = [VecV([]), Opaque("GreenNodeBuilder")]
 
     def step(self, s):
         nm = self.SS[s.idx]
@@ -86,7 +90,31 @@ class TreeBuilder:
             self.pos = sl.hi
         elif nm == "Error":
             self.errors.append((s.fields[0], s.fields[1]))
+            if self.ex is not None and self.real_error_fn(self.ex) is not None:
+                pos = s.fields[1]
+                if isinstance(pos, LenV):
+                    pos = LenV(pos.s, pos.terms, pos.const, 32)
+                self.ex.run(self.real_error_fn(self.ex), [Ref([self.real_builder], 0), s.fields[0], pos])
         return UNIT
+
+    def real_error_fn(self, ex):
+        c = ex.prog.__dict__.get("_stb_error", 0)
+        if c == 0:
+            c = ex.prog.methods.get(("SyntaxTreeBuilder", None, "error"))
+            ex.prog._stb_error = c
+        return c
+
+    def syntax_errors(self):
+        """(range start, range end) of the SyntaxErrors built by the real SyntaxTreeBuilder::error"""
+        out = []
+        for e in self.real_builder[0].items:
+            e = deref(e)
+            rng = deref(e[1])
+            if isinstance(rng, TR):
+                out.append((rng.start, rng.end))
+            else:
+                out.append((rng[0], rng[1]))
+        return out
 
 
 class Source:
@@ -115,7 +143,8 @@ class Source:
         lref = Ref([lexed], 0)
         inp = ex.call("LexedStr::<'_>::to_input", [lref])
         out = ex.call("TopEntryPoint::parse", [Ref([0], 0), Ref([inp], 0)])
-        tb = TreeBuilder(full, kit.prog.enums["StrStep"][0])
+        tb = TreeBuilder(full, kit.prog.enums["StrStep"][0], ex)
+        self.tb = tb
         ex.call("LexedStr::<'_>::intersperse_trivia", [lref, Ref([out], 0), Ref([PyFn(tb.step)], 0)])
         if tb.root is None or tb.stack:
             raise Panic("unbalanced tree")
